@@ -13,8 +13,9 @@ HEADER = ("From Coq Require Import List ZArith QArith NArith.\nFrom PV Require I
 
 
 def model_expr(program, inst):
-    base = P.coq_rel("t", inst["t"], "(Some %d%%N)" % P.nid("t"))
-    pg = program.coq().replace("U_TABLE", P.coq_rel("u", inst["u"], "None")).replace("T_TABLE", P.coq_rel("t", inst["t"], "None"))
+    base = P.coq_rel("t", inst["t"], "(Some %d%%N)" % P.nid("t"), P.inst_cols(inst, "t"))
+    pg = program.coq().replace("U_TABLE", P.coq_rel("u", inst["u"], "None", P.inst_cols(inst, "u"))).replace("T_TABLE", P.coq_rel("t", inst["t"], "None", P.inst_cols(inst, "t")))
+    pg = pg.replace("U_COLS", P.coq_names(P.inst_cols(inst, "u")))
     return "(let r := run %s %s in (show r, names r))" % (base, pg)
 
 
